@@ -38,6 +38,7 @@ from gen import progs
 
 KNOWN_WALRUS = 'C17-namedexpr-ctx'
 KNOWN_LIST_TARGET = 'C17-list-target-new-list'
+KNOWN_NESTED_STORE = 'C17-nested-subscript-store'
 
 # ----------------------------------------------------------------------------- programs
 HAND = [
@@ -48,7 +49,7 @@ HAND = [
     ('bytes', "def f(a, b, c):\n    x = b'ab\\x00' + b\"c'd\"\n    y = 'a\\n\"b' '\\'c' + r'\\d'\n    return x, y, ..., None, True\n"),
     ('complex', 'def f(a, b, c):\n    x = 1j + 2.5e-3j - 1e308 * 10\n    y = 0x1F + 0o7 + 0b1 + 1_000\n    z = (1 + 2j).real\n    return x * -2j, y, z, 1 .real, 1.5.real\n'),
     ('subscr', 'def f(a, b, c):\n    x = a[1, 2]\n    y = a[1:2, ::3]\n    z = a[(1, 2)][b:][:c][::-1]\n    w = a[:, None]\n    a[b, c] = x\n    return x, y, z, w, a[...], a[()]\n'),
-    ('starred', 'def f(a, b, c):\n    x, *y = a\n    *z, w = b\n    [p, *q], r = c\n    t = (*a, *b)\n    u = [*a, 1, *c]\n    v = {*a, *b}\n    d = {**a, 1: 2, **b}\n    return g(*a, *b, k=1, **c), x, y, z, w, p, q, r, t, u, v, d\n'),
+    ('starred', 'def f(a, b, c):\n    x, *y = a\n    *z, w = b\n    (p, *q), r = c\n    t = (*a, *b)\n    u = [*a, 1, *c]\n    v = {*a, *b}\n    d = {**a, 1: 2, **b}\n    return g(*a, *b, k=1, **c), x, y, z, w, p, q, r, t, u, v, d\n'),
     ('chain', 'def f(a, b, c):\n    x = a < b <= c == a != b > c >= a is b is not c in a not in b\n    y = (a < b) < c\n    z = a < (b < c)\n    return x, y, z\n'),
     ('lamdef', 'def f(a, b=lambda x, y=(1, 2), *z, k=lambda: 0, **kw: (x, y, z, k, kw), *c, d=[1, 2][0], **e):\n    g = lambda q=a, *, r=b: (q, r)\n    return g(), b(1), c, d, e\n'),
     ('deco', 'def f(a, b, c):\n    @a\n    @b(1, x=2)\n    def g(x, /, y, *, z):\n        return x + y + z\n    @c.d[0]\n    def h():\n        return g(1, 2, z=3)\n    return h\n'),
@@ -61,10 +62,18 @@ HAND = [
     ('semi', 'def f(a, b, c):\n    x = 1; y = 2\n    if a: x = 2\n    s = """doc\n  string"""\n    t = (a,)\n    u = ()\n    v = a,\n    return x, y, s, t, u, v, 3 if False else 0\n'),
     ('matmul', 'def f(a, b, c):\n    x = a @ b // c % a ** b << c >> a & b | c ^ a\n    x @= a\n    x //= b\n    x **= c\n    x >>= 1\n    return x\n'),
     ('annot', 'def f(a: int, b: "str" = 1, *c: float) -> list:\n    x: int = a\n    y: list\n    return x\n'),
+    # every ctx-carrying class substituted at Store and at Load positions by the control-flow templates
+    ('composite', 'def f(a, b, c):\n    if a:\n        b.v = 1\n        c[0] = 2\n    else:\n        b.v = 3\n        c[0] = 4\n    while a:\n        b.v.w += 1\n        c[a] = b.v\n        a -= 1\n    for b.k, c[1] in a:\n        b.v = b.k\n    for (x, *y), z in a:\n        b.v = (x, y, z)\n    return b.v, c\n'),
+    ('composite2', 'def f(a, b, c):\n    for (p, q), *r in a:\n        if p:\n            b.x.y, c[p] = q, r\n            continue\n        if q:\n            break\n        c[0] = [p, *r]\n    l = [1, [2, 3]]\n    l[1] = b.x.y\n    l[0] += 1\n    return l, b.x.y, c[0]\n'),
     ('printcall', 'def f(a, b, c):\n    print(a, len(b), range(c), sep="")\n    return int(a) + float(b) + abs(c)\n'),
 ]
 
 # walrus: the shapes of known finding C17-namedexpr-ctx and neighbours that work
+LISTS_SHAPES = [
+    ('l_target', 'def f(a, b, c):\n    [p, *q], r = c\n    for [x, y] in a:\n        b = x\n    return p, q, r, b\n'),
+    ('l_nested_store', 'def f(a, b, c):\n    c[a][1] = b\n    c[0][a] += 1\n    return c\n'),
+]
+
 WALRUS = [
     ('w_tuple', 'def f(a, b, c):\n    return (a, (n := 4), n)\n'),
     ('w_while_attr', 'def f(a, b, c):\n    while (n := a).x:\n        a = n.y\n    return a\n'),
@@ -83,6 +92,8 @@ def gen_programs(rnd, tier):
         out.append(('hand:' + name, src))
     for name, src in WALRUS:
         out.append(('walrus:' + name, src))
+    for name, src in LISTS_SHAPES:
+        out.append(('lists:' + name, src))
     streams = [
         ('main', dict(reads='safe', max_stmts=12, loop_else=False)),
         ('bool', dict(reads='safe', boolops=True, comprehension=True, max_stmts=10, loop_else=False)),
@@ -278,6 +289,45 @@ def repair_new_list_targets(root):
             return self.generic_visit(n)
     bad = find_new_list_targets(r)
     return Fix().visit(r)
+
+
+def _is_item_store(st):
+    """`ag__.get_item(...) = ag__.set_item(...)` / `... = ag__.update_item_with_op(...)`: what the
+    slices converter makes of a store into a nested subscript (c[i][j] = v) with Feature.LISTS."""
+    return (isinstance(st, ast.Assign) and len(st.targets) == 1 and isinstance(st.targets[0], ast.Call)
+            and ast.unparse(st.targets[0].func) == 'ag__.get_item'
+            and isinstance(st.value, ast.Call) and ast.unparse(st.value.func) in ('ag__.set_item', 'ag__.update_item_with_op'))
+
+
+def find_nested_stores(root):
+    return [n for n in walk_nodes(root) if _is_item_store(n)]
+
+
+def repair_nested_stores(root):
+    r = copy.deepcopy(root)
+    for n in find_nested_stores(r):
+        n.targets = [ast.Name(id='c17_discard', ctx=ast.Store())]
+    return r
+
+
+REPAIRS = [(KNOWN_WALRUS, find_bad_walrus, repair_walrus),
+           (KNOWN_LIST_TARGET, find_new_list_targets, repair_new_list_targets),
+           (KNOWN_NESTED_STORE, find_nested_stores, repair_nested_stores)]
+
+
+def classify_tree(root, parser):
+    """ids of the known findings that together explain every tree-level failure, or None."""
+    ids = []
+    cur = root
+    for kid, find, repair in REPAIRS:
+        if find(cur):
+            cur = repair(cur)
+            if cur is None:
+                return None
+            ids.append(kid)
+    if ids and not tree_checks(cur, parser):
+        return tuple(ids)
+    return None
 
 
 def tree_checks(root, parser):
@@ -652,15 +702,7 @@ def run_pipeline(run, programs, tmpdir, mon):
                     stats['converted'] += 1
                     local += loaded_checks(api, fn, conv, root, recursive, feats, mon)
                 if local:
-                    cls = None
-                    if find_bad_walrus(root):
-                        fixed = repair_walrus(root)
-                        if fixed is not None and not tree_checks(fixed, parser):
-                            cls = KNOWN_WALRUS
-                    elif find_new_list_targets(root):
-                        fixed = repair_new_list_targets(root)
-                        if not tree_checks(fixed, parser):
-                            cls = KNOWN_LIST_TARGET
+                    cls = classify_tree(root, parser)
                     for what, detail in local:
                         failures.append({'program': pname, 'source': src, 'recursive': recursive,
                                          'optional_features': repr(feats), 'what': what, 'detail': detail,
@@ -994,8 +1036,13 @@ def _check(run, tmpdir):
                   'recursive': f['recursive'], 'optional_features': f['optional_features'],
                   'transformed_tree_unparsed': f['transformed'],
                   'replay': 'cd /verif && bin/check C17 --replay <this file>'}
-        if run.violation(f['what'], replay, classify=f['classify']):
+        if f['classify'] is None:
+            run.violation(f['what'], replay)
             nviol += 1
+        else:
+            for kid in f['classify']:
+                if run.violation(f['what'], replay, classify=kid):
+                    nviol += 1
     if not nviol and not any(f['classify'] is None for f in failures):
         searched = 'oracle over %d program x option runs and %d recorded templates.replace calls found no failing input' % (
             run.evaluations, len(pipeline_calls))
